@@ -58,11 +58,14 @@ Record HBInv (c : config) (s : state) : Prop := {
   HB_created_uniq : forall t1 t2 e1 e2 i, cs s t1 = CCreated e1 i -> cs s t2 = CCreated e2 i -> t1 = t2;
   HB_held : forall t i, cs s t = CHolding i -> hb s i <> HNone;
   HB_proc : forall t i q, cs s t = CHolding i -> hb_proc (hb s i) = Some q -> q = cproc s t;
-  HB_time : forall i cr u, content s i = FMeta cr (Some u) -> u <= now s
+  HB_time : forall i cr u, content s i = FMeta cr (Some u) -> u <= now s;
+  HB_tids : forall t, cs s t <> CIdle -> In t (tids s);
+  HB_nogarbage : forall i, content s i <> FGarbage     (* runs from [init]: nobody writes garbage *)
 }.
 
 Definition good_cfg (c : config) : Prop :=
-  0 < interval c /\ 0 <= delta c /\ interval c + delta c <= factor c * interval c.
+  0 < interval c /\ 0 <= delta c /\ interval c + delta c <= factor c * interval c /\
+  0 <= eps c <= factor c * interval c.
 
 Lemma HBInv_init c : HBInv c init.
 Proof.
@@ -155,10 +158,16 @@ Proof.
     left. destruct Hs as [Hs|Hs]; [auto|]. right. exact (kill_hb_stamp _ _ _ _ Hs).
 Qed.
 
-Lemma can_tick_hb s d i : can_tick c s d = true -> (i < nexti s)%nat -> hb_allows c (now s + d) (hb s i) = true.
+Lemma can_tick_hb s d i : can_tick c s d = true -> (i < nexti s)%nat -> hb_allows c s (now s + d) (hb s i) = true.
 Proof.
-  unfold can_tick. rewrite andb_true_iff. intros [_ H] Hi. rewrite forallb_forall in H.
+  unfold can_tick. rewrite !andb_true_iff. intros [[_ H] _] Hi. rewrite forallb_forall in H.
   apply H. apply in_seq. lia.
+Qed.
+Lemma can_tick_nonneg s d : can_tick c s d = true -> 0 <= d.
+Proof. unfold can_tick. rewrite !andb_true_iff. intros [[H _] _]. apply Z.leb_le. exact H. Qed.
+Lemma can_tick_cs s d t : can_tick c s d = true -> In t (tids s) -> cs_allows c s (now s + d) (cs s t) = true.
+Proof.
+  unfold can_tick. rewrite !andb_true_iff. intros [_ H] Hi. rewrite forallb_forall in H. apply H. exact Hi.
 Qed.
 
 Lemma HBInv_step s l s' : HBInv c s -> step c s l = Some s' -> HBInv c s'.
@@ -298,11 +307,24 @@ Proof.
   - (* HB_time *)
     pose proof (HB_time c s HI) as Ht. pose proof (HB_trunc c s HI) as Htr.
     inv_step Hstep; cbn [content now set_cs]; intros i' cr' u' H'; try (eapply Ht; eassumption).
-    + apply Ht in H'. apply andb_true_iff in Eb. destruct Eb as [Eb _]. apply Z.leb_le in Eb. lia.
+    + apply Ht in H'. apply can_tick_nonneg in Eb. lia.
     + destruct (Nat.eq_dec i' (nexti s)) as [->|Hni]; [rewrite upd_eq in H'; discriminate | rewrite upd_neq in H' by assumption; eapply Ht; eassumption].
     + destruct (Nat.eq_dec i' i) as [->|Hni]; [rewrite upd_eq in H'; injection H'; intros; lia | rewrite upd_neq in H' by assumption; eapply Ht; eassumption].
     + destruct (Nat.eq_dec i' i0) as [->|Hni]; [rewrite upd_eq in H'; discriminate | rewrite upd_neq in H' by assumption; eapply Ht; eassumption].
     + destruct (Nat.eq_dec i' target) as [->|Hni]; [rewrite upd_eq in H'; injection H'; intros; lia | rewrite upd_neq in H' by assumption; eapply Ht; eassumption].
+  - (* HB_tids *)
+    pose proof (HB_tids c s HI) as Hti.
+    inv_step Hstep; cbn [cs tids set_cs]; intros t' H'; try (apply Hti; exact H').
+    all: try (destruct (Nat.eq_dec t' t) as [->|Hne]; [apply Hti; congruence | rewrite upd_neq in H' by assumption; apply Hti; exact H']).
+    + destruct (Nat.eq_dec t' t) as [->|Hne]; [left; reflexivity | right; rewrite upd_neq in H' by assumption; apply Hti; exact H'].
+    + apply Hti. intros E. apply H'. unfold kill_cs. rewrite E. reflexivity.
+  - (* HB_nogarbage *)
+    pose proof (HB_nogarbage c s HI) as Hng.
+    inv_step Hstep; cbn [content set_cs]; intros i' H'; try (eapply Hng; eassumption).
+    all: match type of H' with
+         | upd _ ?k _ _ = _ => destruct (Nat.eq_dec i' k) as [->|Hne];
+                               [rewrite upd_eq in H'; discriminate | rewrite upd_neq in H' by assumption; eapply Hng; eassumption]
+         end.
 Qed.
 
 Lemma HBInv_reach ok s : reach c ok init s -> HBInv c s.
@@ -325,8 +347,12 @@ Definition gives_up (c : config) (s : state) (l : label) : Prop :=
     allowed in the runs of Part B: "as long as every holder is alive". *)
 Definition kills_owner (s : state) (l : label) : Prop :=
   exists p t i, l = LKill p /\ owner s t i /\ cproc s t = p.
-Definition live_ok (c : config) (s : state) (l : label) : Prop :=
-  ~ kills_owner s l /\ ~ gives_up c s l.
+Definition live_ok (c : config) (s : state) (l : label) : Prop := ~ kills_owner s l.
+
+(** an empty lock file in place was created or truncated at most max(delta, eps) ago *)
+Definition gapb (c : config) : Z := Z.max (delta c) (eps c).
+Definition GapInv (c : config) (s : state) : Prop :=
+  forall i, file s = Some i -> content s i = FEmpty -> now s <= mtime s i + gapb c.
 
 Record MInv (c : config) (s : state) : Prop := {
   M_file : forall t i, owner s t i -> file s = Some i;
@@ -348,6 +374,7 @@ Qed.
 Section PartB.
 Variable c : config.
 Hypothesis Hchk : checks c = true.
+Hypothesis Hgrd : guard c = true.
 Hypothesis Hcfg : good_cfg c.
 
 Lemma owner_upd_other s t x t' i (f := upd (cs s) t x) :
@@ -366,9 +393,37 @@ Proof.
     pose proof (HB_sleep c s HB _ _ _ _ Hh) as Hs. unfold is_stale. apply Z.ltb_ge. lia.
 Qed.
 
-Lemma MInv_step s l s' : HBInv c s -> MInv c s -> live_ok c s l -> step c s l = Some s' -> MInv c s'.
+Lemma GapInv_init : GapInv c init.
+Proof. intros i H. discriminate. Qed.
+
+Lemma GapInv_step s l s' : HBInv c s -> MInv c s -> GapInv c s -> step c s l = Some s' -> GapInv c s'.
 Proof.
-  intros HB HM [Hnk Hng] Hstep.
+  intros HB HM HG Hstep. destruct Hcfg as (Hint & Hdel & Hfac & Heps).
+  assert (Hgb : 0 <= gapb c /\ delta c <= gapb c /\ eps c <= gapb c) by (unfold gapb; lia).
+  inv_step Hstep; unfold GapInv; cbn [file content now mtime set_cs]; intros i' Hf' Hc'; try (apply HG; assumption); try discriminate.
+  all: try (apply HG; [congruence | assumption]).
+  - (* tick *)
+    destruct (M_owned c s HM i' Hf') as [t [[ec Ho]|Ho]].
+    + assert (Hin : In t (tids s)) by (apply (HB_tids c s HB); congruence).
+      pose proof (can_tick_cs c s d t Eb Hin) as Ha. rewrite Ho in Ha. cbn in Ha. apply Z.leb_le in Ha. lia.
+    + destruct (M_hold c s HM t i' Ho) as [(p & cr & due & u & Hh & Hc2 & _)|(p & cr & sn & Hh & _)]; [congruence|].
+      assert (Hlt : (i' < nexti s)%nat) by (apply (HB_lt c s HB); congruence).
+      pose proof (can_tick_hb c s d i' Eb Hlt) as Ha. rewrite Hh in Ha. cbn in Ha. apply Z.leb_le in Ha. lia.
+  - (* create *)
+    injection Hf'; intros <-. rewrite upd_eq. lia.
+  - (* write meta *)
+    destruct (Nat.eq_dec i' i) as [->|Hne]; [rewrite upd_eq in Hc'; discriminate|].
+    rewrite upd_neq in Hc' by assumption. rewrite upd_neq by assumption. apply HG; assumption.
+  - (* heartbeat truncates the file in place *)
+    injection Hf'; intros <-. rewrite upd_eq. lia.
+  - (* heartbeat write *)
+    destruct (Nat.eq_dec i' target) as [->|Hne]; [rewrite upd_eq in Hc'; discriminate|].
+    rewrite upd_neq in Hc' by assumption. rewrite upd_neq by assumption. apply HG; assumption.
+Qed.
+
+Lemma MInv_step s l s' : HBInv c s -> MInv c s -> GapInv c s -> live_ok c s l -> step c s l = Some s' -> MInv c s'.
+Proof.
+  intros HB HM HG Hnk Hstep.
   pose proof (M_file c s HM) as Mf. pose proof (M_one c s HM) as Mo.
   pose proof (M_nostale c s HM) as Mn. pose proof (M_hold c s HM) as Mh.
   assert (Mfile : forall i, file s = Some i -> exists t, owner s t i) by exact (M_owned c s HM).
@@ -450,11 +505,13 @@ Proof.
       - intros t' i H. destruct (Nat.eq_dec t' t) as [->|Hne]; [rewrite upd_eq in H; destruct (Hx3 _ H) | rewrite upd_neq in H by assumption; exact (Mh _ _ H)]. }
     remember (file s) as fo eqn:Ef in Hstep; destruct fo as [i|]; symmetry in Ef.
     + destruct (content s i) as [|cr u|] eqn:Ect.
-      * destruct (S ec <? retries c)%nat eqn:Er; injection Hstep as <-.
-        -- apply Hgen; intros; discriminate.
-        -- exfalso. apply Hng. exists t, ec, i. auto.
+      * (* an empty file in place is young: with the mtime guard nobody gives up on it *)
+        assert (Hyoung : (guard c && negb (factor c * interval c <? now s - mtime s i)) = true).
+        { rewrite Hgrd. cbn. apply negb_true_iff, Z.ltb_ge. pose proof (HG i Ef Ect) as Hg.
+          destruct Hcfg as (Hint & Hdel & Hfac & Heps). unfold gapb in Hg. lia. }
+        rewrite Hyoung, orb_true_r in Hstep. injection Hstep as <-. apply Hgen; intros; discriminate.
       * rewrite (Hns i cr u HB HM Ef Ect) in Hstep. injection Hstep as <-. apply Hgen; intros; discriminate.
-      * injection Hstep as <-. apply Hgen; intros; discriminate.
+      * destruct (HB_nogarbage c s HB i Ect).
     + injection Hstep as <-. apply Hgen; intros; discriminate.
   - (* remove *)
     cbn [step] in Hstep. destruct (cs s t) eqn:Ecs; try discriminate. destruct (Mn t ec Ecs).
@@ -496,7 +553,7 @@ Proof.
     cbn [step] in Hstep. destruct (hb s i) as [|p cr due| |] eqn:Ehb; try discriminate.
     destruct (due <=? now s); [|discriminate].
     (* the heartbeat of a held lock does not stop *)
-    assert (Hdone : forall s1, s1 = State (now s) (file s) (content s) (nexti s) (cs s) (cproc s) (tids s) (upd (hb s) i HDone) (lastcreate s) ->
+    assert (Hdone : forall s1, s1 = State (now s) (file s) (content s) (nexti s) (cs s) (cproc s) (tids s) (upd (hb s) i HDone) (lastcreate s) (mtime s) ->
                     (forall t j, cs s t = CHolding j -> j <> i) -> MInv c s1).
     { intros s1 -> Hne. constructor; cbn [cs file content hb].
       - exact Mf.
@@ -554,29 +611,36 @@ Proof.
       rewrite Hkh. exact (Mh _ _ Hc).
 Qed.
 
-Definition BothInv (s : state) : Prop := HBInv c s /\ MInv c s.
+Definition BothInv (s : state) : Prop := HBInv c s /\ MInv c s /\ GapInv c s.
 
 Lemma BothInv_reach s : reach c (live_ok c) init s -> BothInv s.
 Proof.
   apply (reach_invariant c (live_ok c) BothInv).
-  - intros x l y [HB HM] Hok Hs. split; [exact (HBInv_step c Hchk Hcfg x l y HB Hs) | exact (MInv_step x l y HB HM Hok Hs)].
-  - split; [apply HBInv_init | apply MInv_init].
+  - intros x l y (HB & HM & HG) Hok Hs. split; [exact (HBInv_step c Hchk Hcfg x l y HB Hs)|].
+    split; [exact (MInv_step x l y HB HM HG Hok Hs) | exact (GapInv_step x l y HB HM HG Hs)].
+  - split; [apply HBInv_init | split; [apply MInv_init | apply GapInv_init]].
 Qed.
 
 (** Mutual exclusion: at most one thread holds the lock. *)
 Theorem mutex_no_crash s t1 t2 i1 i2 : reach c (live_ok c) init s ->
   cs s t1 = CHolding i1 -> cs s t2 = CHolding i2 -> t1 = t2.
 Proof.
-  intros R H1 H2. destruct (BothInv_reach s R) as [_ HM].
+  intros R H1 H2. destruct (BothInv_reach s R) as (_ & HM & _).
   apply (M_one c s HM t1 t2 i1 i2); right; assumption.
 Qed.
+
+(** While every owner lives nobody ever judges the lock file stale: no thread is about to
+    remove it (the documented race between two waiters that both remove a stale file needs
+    a dead holder first). *)
+Theorem stale_removal_needs_dead_owner s t ec : reach c (live_ok c) init s -> cs s t <> CStale ec.
+Proof. intros R. destruct (BothInv_reach s R) as (_ & HM & _). apply (M_nostale c s HM). Qed.
 
 (** A create can only succeed when nobody holds (or is about to hold) the lock ... *)
 Theorem waiter_after_release s t s' ec i : reach c (live_ok c) init s ->
   step c s (LTryCreate t) = Some s' -> cs s' t = CCreated ec i ->
   forall t' j, cs s t' <> CHolding j.
 Proof.
-  intros R Hs Hc t' j H. destruct (BothInv_reach s R) as [_ HM].
+  intros R Hs Hc t' j H. destruct (BothInv_reach s R) as (_ & HM & _).
   assert (Hf : file s = Some j) by (apply (M_file c s HM t'); right; assumption).
   cbn [step] in Hs. destruct (cs s t) eqn:Ecs; try discriminate. rewrite Hf in Hs. injection Hs as <-.
   cbn in Hc. rewrite upd_eq in Hc. discriminate.
@@ -616,7 +680,7 @@ Proof.
   destruct (cs s t) eqn:E; auto; cbn [step]; rewrite E.
   - destruct (file s); eauto.
   - intros H. apply Z.ltb_lt in H. rewrite H. eauto.
-  - destruct (file s) as [i|]; [|eauto]. destruct (content s i); [destruct (S ec <? retries c)%nat | destruct (is_stale c (now s) created updated) |]; eauto.
+  - destruct (file s) as [i|]; [|eauto]. destruct (content s i); [match goal with |- context [if ?b then _ else _] => destruct b end | destruct (is_stale c (now s) created updated) | destruct (undec c); [match goal with |- context [if ?b then _ else _] => destruct b end|]]; eauto.
   - eauto.
 Qed.
 
@@ -652,7 +716,7 @@ Proof.
          [rewrite upd_eq in H; try discriminate; try (injection H; intros <- <-; lia)
          | rewrite upd_neq in H by assumption; exact (HI _ _ _ H)]);
     try exact (HI _ _ _ H).
-  - apply andb_true_iff in Eb. destruct Eb as [Eb _]. apply Z.leb_le in Eb. specialize (HI _ _ _ H). lia.
+  - apply can_tick_nonneg in Eb. specialize (HI _ _ _ H). lia.
   - destruct (kill_cs_cases p (cproc s) (cs s) t') as [E|[E _]]; rewrite E in H; [exact (HI _ _ _ H) | discriminate].
 Qed.
 Lemma SleepInv_reach c ok s : reach c ok init s -> SleepInv c s.
@@ -726,7 +790,7 @@ Proof.
               (forall p cr due, hb (set_cs s t x) i <> HSleep p cr due) /\ (forall p cr j fcr sn, hb (set_cs s t x) i <> HTrunc p cr j fcr sn)).
     { intros x Hx. cbn. split; [reflexivity|]. split; [assumption|]. split; [|auto].
       intros t' e. destruct (Nat.eq_dec t' t) as [->|Hne]; [rewrite upd_eq; apply Hx | rewrite upd_neq by assumption; apply Hnc]. }
-    rewrite Hf in Hs. destruct (content s i); [destruct (S ec <? retries c)%nat | destruct (is_stale c (now s) created updated) |];
+    rewrite Hf in Hs. destruct (content s i); [match type of Hs with context [if ?b then _ else _] => destruct b end | destruct (is_stale c (now s) created updated) | destruct (undec c); [match type of Hs with context [if ?b then _ else _] => destruct b end|]];
       injection Hs as <-; apply Hgen; intros; discriminate.
   - destruct (cs s t) eqn:Ecs; try discriminate. injection Hs as <-. cbn in Hf'. discriminate.
   - destruct (cs s t) eqn:Ecs; try discriminate. destruct (until <=? now s); [|discriminate]. injection Hs as <-.
@@ -740,7 +804,7 @@ Proof.
     destruct (hb s i0) as [|p cr due| |] eqn:Ehb; try discriminate.
     assert (Hne : i <> i0) by (intros ->; exact (Hns _ _ _ Ehb)).
     destruct (due <=? now s); [|discriminate]. rewrite Hf in Hs.
-    assert (Hdone : content (State (now s) (Some i) (content s) (nexti s) (cs s) (cproc s) (tids s) (upd (hb s) i0 HDone) (lastcreate s)) i = content s i /\
+    assert (Hdone : content (State (now s) (Some i) (content s) (nexti s) (cs s) (cproc s) (tids s) (upd (hb s) i0 HDone) (lastcreate s) (mtime s)) i = content s i /\
               Some i = Some i /\ (forall t' e, cs s t' <> CCreated e i) /\
               (forall p cr due, upd (hb s) i0 HDone i <> HSleep p cr due) /\ (forall p cr j fcr sn, upd (hb s) i0 HDone i <> HTrunc p cr j fcr sn)).
     { cbn. rewrite upd_neq by assumption. auto. }
@@ -759,6 +823,24 @@ Proof.
     + intros p' cr j fcr sn H. destruct (kill_hb_cases p (hb s) i) as [E|[E _]]; rewrite E in H; [exact (Hnt _ _ _ _ _ H) | discriminate].
 Qed.
 
+(** ... nor changes its modification time *)
+Lemma abandoned_mtime_step s l s' i : HBInv c s -> abandoned s i -> step c s l = Some s' ->
+  mtime s' i = mtime s i.
+Proof.
+  intros HB (Hf & Hnc & Hns & Hnt) Hs.
+  pose proof (HB_file c s HB i Hf) as Hlt. pose proof (HB_trunc c s HB) as Htr.
+  inv_step Hs; cbn [mtime set_cs]; try reflexivity; try congruence.
+  - (* write meta *)
+    assert (i <> i0) by (intros ->; exact (Hnc _ _ Ecs)). rewrite upd_neq by assumption. reflexivity.
+  - (* heartbeat truncate *)
+    assert (E1 : i1 = i) by congruence. subst i1.
+    destruct (wake_target c Hchk s i0 p created due i created0 updated HB Ehb Ect Eb0) as [E _].
+    subst i0. destruct (Hns _ _ _ Ehb).
+  - (* heartbeat write *)
+    destruct (Htr _ _ _ _ _ _ Ehb) as [-> ->].
+    assert (i <> i0) by (intros ->; exact (Hnt _ _ _ _ _ Ehb)). rewrite upd_neq by assumption. reflexivity.
+Qed.
+
 (** once the name points elsewhere (or nowhere) it never points to inode [i] again *)
 Lemma gone_step s l s' i : (i < nexti s)%nat -> file s <> Some i -> step c s l = Some s' ->
   (i < nexti s')%nat /\ file s' <> Some i.
@@ -769,19 +851,20 @@ Proof.
 Qed.
 
 Lemma abandoned_run ls : forall s s' i, HBInv c s -> abandoned s i -> run c s ls = Some s' -> file s' = Some i ->
-  content s' i = content s i /\ abandoned s' i /\ HBInv c s' /\ now s <= now s'.
+  content s' i = content s i /\ abandoned s' i /\ HBInv c s' /\ now s <= now s' /\ mtime s' i = mtime s i.
 Proof.
   induction ls as [|l ls IH]; intros s s' i HB Ha; cbn [run].
-  - intros H _; injection H; intros <-. split; [reflexivity|]. split; [assumption|]. split; [assumption | lia].
+  - intros H _; injection H; intros <-. split; [reflexivity|]. split; [assumption|]. split; [assumption|]. split; [lia | reflexivity].
   - destruct (step c s l) as [s1|] eqn:E; [|discriminate]. intros Hr Hf'.
     pose proof (HBInv_step c Hchk Hcfg s l s1 HB E) as HB1.
     assert (Hnow : now s <= now s1).
-    { clear - E. inv_step E; cbn; try lia. apply andb_true_iff in Eb. destruct Eb as [Eb _]. apply Z.leb_le in Eb. lia. }
+    { clear - E. inv_step E; cbn; try lia. apply can_tick_nonneg in Eb. lia. }
     assert (Hdec : file s1 = Some i \/ file s1 <> Some i).
     { destruct (file s1) as [j|]; [destruct (Nat.eq_dec j i); [left; congruence | right; congruence] | right; discriminate]. }
     destruct Hdec as [Hf1|Hf1].
     + destruct (abandoned_step s l s1 i HB Ha E Hf1) as [Hc1 Ha1].
-      destruct (IH s1 s' i HB1 Ha1 Hr Hf') as (H1 & H2 & H3 & H4). split; [congruence|]. split; [assumption|]. split; [assumption | lia].
+      pose proof (abandoned_mtime_step s l s1 i HB Ha E) as Hm1.
+      destruct (IH s1 s' i HB1 Ha1 Hr Hf') as (H1 & H2 & H3 & H4 & H5). split; [congruence|]. split; [assumption|]. split; [assumption|]. split; [lia | congruence].
     + exfalso. destruct Ha as (Hf & _). pose proof (HB_file c s HB i Hf) as Hlt.
       assert (Hg : (i < nexti s1)%nat /\ file s1 <> Some i).
       { split; [|assumption]. clear - E Hlt. inv_step E; cbn; lia. }
@@ -803,7 +886,7 @@ Proof.
   set (s2 := set_cs s1 w (CStale ec')).
   assert (E2 : step c s1 (LOpenRead w) = Some s2).
   { cbn [step]. unfold s1. cbn [cs set_cs file content now]. rewrite upd_eq, Hf, Hc, Hst. reflexivity. }
-  set (s3 := State (now s2) None (content s2) (nexti s2) (upd (cs s2) w (CTry ec')) (cproc s2) (tids s2) (hb s2) (lastcreate s2)).
+  set (s3 := State (now s2) None (content s2) (nexti s2) (upd (cs s2) w (CTry ec')) (cproc s2) (tids s2) (hb s2) (lastcreate s2) (mtime s2)).
   assert (E3 : step c s2 (LRemove w) = Some s3).
   { cbn [step]. unfold s2 at 1. cbn [cs set_cs]. rewrite upd_eq. reflexivity. }
   assert (E4 : exists s4, step c s3 (LTryCreate w) = Some s4 /\ cs s4 w = CCreated ec' (nexti s) /\ file s4 = Some (nexti s) /\ now s4 = now s).
@@ -832,7 +915,7 @@ Proof.
   assert (Hcs : content s i = content s0 i /\ now s = now s0).
   { cbn [step] in Hk. injection Hk as <-. cbn. auto. }
   destruct Hcs as [Hcs Hns].
-  destruct (abandoned_run ls s s' i HBs Ha Hr Hf') as (Hc' & _ & _ & Hnow).
+  destruct (abandoned_run ls s s' i HBs Ha Hr Hf') as (Hc' & _ & _ & Hnow & _).
   assert (Hcont : content s' i = FMeta cr (Some u)) by congruence.
   split; [assumption|]. apply (stale_obtainable s' i cr (Some u) w ec); auto.
   pose proof (HB_time c s0 HB i cr u Hc) as Hu. unfold is_stale. apply Z.ltb_lt. lia.
@@ -845,19 +928,22 @@ Theorem empty_recovers s0 t i s ls s' :
   HBInv c s0 -> owner s0 t i -> file s0 = Some i -> content s0 i = FEmpty ->
   step c s0 (LKill (cproc s0 t)) = Some s ->
   run c s ls = Some s' -> file s' = Some i ->
-  content s' i = FEmpty /\
+  content s' i = FEmpty /\ mtime s' i = mtime s0 i /\
   forall w ec, cs s' w = CExists ec ->
     exists s1, step c s' (LOpenRead w) = Some s1 /\
-      cs s1 w = if (S ec <? retries c)%nat then CSleep (S ec) (now s' + esleep c) else CStale (S ec).
+      cs s1 w = if (S ec <? retries c)%nat || (guard c && negb (factor c * interval c <? now s' - mtime s0 i))
+                then CSleep (S ec) (now s' + esleep c) else CStale (S ec).
 Proof.
   intros HB Hh Hf Hc Hk Hr Hf'.
   pose proof (kill_abandons s0 t i s HB Hh Hf Hk) as Ha.
   pose proof (HBInv_step c Hchk Hcfg s0 _ s HB Hk) as HBs.
-  assert (Hcs : content s i = content s0 i) by (cbn [step] in Hk; injection Hk as <-; reflexivity).
-  destruct (abandoned_run ls s s' i HBs Ha Hr Hf') as (Hc' & _ & _ & _).
+  assert (Hcs : content s i = content s0 i /\ mtime s i = mtime s0 i) by (cbn [step] in Hk; injection Hk as <-; split; reflexivity).
+  destruct Hcs as [Hcs Hms].
+  destruct (abandoned_run ls s s' i HBs Ha Hr Hf') as (Hc' & _ & _ & _ & Hm').
   assert (Hcont : content s' i = FEmpty) by congruence.
-  split; [assumption|]. intros w ec Hw. cbn [step]. rewrite Hw, Hf', Hcont.
-  destruct (S ec <? retries c)%nat; eexists; (split; [reflexivity|]); cbn; rewrite upd_eq; reflexivity.
+  assert (Hmt : mtime s' i = mtime s0 i) by congruence.
+  split; [assumption|]. split; [assumption|]. intros w ec Hw. cbn [step]. rewrite Hw, Hf', Hcont, Hmt.
+  match goal with |- context [if ?b then _ else _] => destruct b end; eexists; (split; [reflexivity|]); cbn; rewrite upd_eq; reflexivity.
 Qed.
 End PartD.
 
